@@ -181,10 +181,37 @@ IsDsv(fmt) == fmt \in {"csv", "tsv"}
 ColsOf(fmt, cfg, chunks) == IF IsDsv(fmt) THEN Cols(cfg, chunks) ELSE <<>>
 
 \* ------------------------------------------------- filter predicates
-\* case folding of the few mixed-case tokens the harness renders
-FoldTok(t) == CASE t = "W1" -> "w1" [] t = "W2" -> "w2" [] t = "W3" -> "w3"
-                [] t = "LIST" -> "list" [] t = "Table" -> "table" [] OTHER -> t
-Fold(x) == [i \in 1..Len(x) |-> FoldTok(x[i])]
+\* The documented meaning of every ChunkCollection filter (rag/metadata.go), one line each:
+\*   Filter(f)                  f(chunk)                                   ("index": a predicate on ChunkIndex)
+\*   FilterBySection(s)         SectionTitle = s or s is an element of SectionPath (exact, case-sensitive)
+\*   FilterByPage(n)            PageStart <= n <= PageEnd
+\*   FilterByPageRange(a, b)    the chunk's pages overlap a..b:  PageEnd >= a and PageStart <= b
+\*   FilterByElementType(t)     some element type equals t, ASCII letters compared without case
+\*   FilterWithTables/Lists/Images   the chunk's flag
+\*   FilterByMinTokens(n) / FilterByMaxTokens(n)   EstimatedTokens >= n / <= n
+\*   Search(k)                  "containing a keyword (case-insensitive)": the lower-cased text contains
+\*                              the lower-cased keyword as a contiguous run of characters; the empty
+\*                              keyword is contained in every text
+\* Texts are sequences of tokens; a token of the case alphabet below is one character.  TLC cannot
+\* lower-case Unicode, so the case map is this explicit finite table (Unicode simple lower-case
+\* mapping, UnicodeData.txt field 13): character -> its lower case; every token not listed is its own
+\* lower case.  The pairs are of different kinds on purpose:
+\*   same length       A/a, K/k, S/s (ASCII), E1/e1 = U+00C9/U+00E9 (Latin-1), SG/sg = U+03A3/U+03C3
+\*   length-changing   I1 = U+0130 (2 bytes) -> i,  KS = U+212A KELVIN SIGN (3 bytes) -> k,
+\*                     AS = U+023A (2 bytes) -> as = U+2C65 (3 bytes),  SS = U+1E9E (3 bytes) -> ss = U+00DF
+\*   lower case of nothing: sf = U+03C2 final sigma and ls = U+017F long s are lower-case letters that
+\*                     case FOLDING identifies with sg / s, but lower-casing keeps apart
+LowerPairs == { <<"A", "a">>, <<"K", "k">>, <<"S", "s">>, <<"E1", "e1">>, <<"SG", "sg">>,
+                <<"I1", "i">>, <<"KS", "k">>, <<"AS", "as">>, <<"SS", "ss">>,
+                <<"W1", "w1">>, <<"W2", "w2">>, <<"W3", "w3">> }      \* W*: the mixed-case words
+LowerTok(t) == IF \E q \in LowerPairs : q[1] = t THEN (CHOOSE q \in LowerPairs : q[1] = t)[2] ELSE t
+Lower(x) == [i \in 1..Len(x) |-> LowerTok(x[i])]
+\* the characters of the case alphabet (for generators; digits, emoji and NUL have no case)
+CaseAlphabet == {"a", "A", "k", "K", "s", "S", "e1", "E1", "sg", "SG", "sf", "I1", "i", "KS", "AS", "as",
+                 "SS", "ss", "ls", "d7", "EMOJI", "NUL"}
+
+\* element types are ASCII identifiers
+FoldTok(t) == CASE t = "LIST" -> "list" [] t = "Table" -> "table" [] OTHER -> t
 
 HasSub(hay, needle) ==
     \E i \in 0..(Len(hay) - Len(needle)) : SubSeq(hay, i + 1, i + Len(needle)) = needle
@@ -200,7 +227,7 @@ Sat(p, c) ==
       [] p.k = "images"    -> c.image
       [] p.k = "mintok"    -> c.tokens >= p.a
       [] p.k = "maxtok"    -> c.tokens <= p.a
-      [] p.k = "search"    -> HasSub(Fold(c.text), Fold(p.s))
+      [] p.k = "search"    -> HasSub(Lower(c.text), Lower(p.s))
       [] p.k = "index"     -> \E n \in 1..Len(p.set) : p.set[n] = c.index    \* generic Filter(func)
 
 SatAll(ps, c) == \A i \in 1..Len(ps) : Sat(ps[i], c)
